@@ -1204,6 +1204,8 @@ def e2e_options(rng, style=None):
         o["format__frozen"] = True
     if rng.random() < 0.2:
         o["relative_imports"] = True
+    if rng.random() < 0.25:
+        o["generic_collections"] = True  # with format__frozen: reverted by validate() on every route
     return o
 
 
@@ -1370,7 +1372,7 @@ def e2e_runs(a, tier="quick"):
     """(label, result) of the same generation along every axis of the property"""
     schemas, options = a["schemas"], a["options"]
     yield "api/run1", S.generate_full("api", schemas, options, None)
-    yield "api/run2", S.generate_full("api", schemas, options, None)
+    yield "api/run2-after-chdir", S.generate_full("api", schemas, options, None)
     for sh in (11, 12, 13):
         yield f"api/setorder{sh}", S.generate_full("api", schemas, options, sh)
     yield "cli-flags", S.generate_full("cli", schemas, options, None)
@@ -1399,8 +1401,6 @@ def covered_e2e(a, msg):
     if has_seqleak_pattern(a["schemas"], a["options"]) and "sequence" in msg:
         return "C12-F1"
     o = a["options"]
-    if o.get("generic_collections") and o.get("format__frozen") and "cli-flags" in msg:
-        return "C12-F2"
     if o.get("include_header") and "This file was generated by xsdata" in msg:
         return "C12-F3"
     return None
@@ -1585,11 +1585,32 @@ def check_config_routes(a):
     return None
 
 
-def covered_config_routes(a, msg):
-    opts = {d: v for d, _k, v in a["options"]}
-    if opts.get("generic_collections") and opts.get("format__frozen") and "generic_collections" in msg:
-        return "C12-F2"
+def check_cwd(a):
+    """package_path / module_path must follow the *current* working directory: a
+    second generation in the same process after a chdir writes under the new one."""
+    import tempfile
+
+    from xsdata.utils.package import module_path, package_path
+
+    cwd = os.getcwd()
+    dirs = [os.path.realpath(tempfile.mkdtemp(prefix="c12cwd")) for _ in range(2)]
+    try:
+        for d in dirs:
+            os.chdir(d)
+            for fn in (module_path, package_path):
+                p = str(fn(a["module"]))
+                if not p.startswith(d + os.sep) and p != d:
+                    return f"{fn.__name__}({a['module']!r}) in {d} -> {p} (a directory of an earlier call)"
+    finally:
+        os.chdir(cwd)
+        for d in dirs:
+            os.rmdir(d)
     return None
+
+
+def gen_cwd(rng, tier):
+    for m in ("generated.a", "gen.out.mod", "x", "pkg.sub.deep.mod_1"):
+        yield {"module": m}
 
 
 ORACLES = [
@@ -1606,8 +1627,8 @@ ORACLES = [
     Oracle("sequence-numbers-id-independent", gen_oracle_seqnum, check_seqnum, covered=covered_seqnum,
            from_ops=("gen.seqnum",)),
     Oracle("source-order-listing-independent", gen_process_order, check_process_order, from_ops=("gen.process_order",)),
-    Oracle("config-routes-agree", gen_config_routes, check_config_routes, covered=covered_config_routes,
-           from_ops=("gen.config_routes",)),
+    Oracle("config-routes-agree", gen_config_routes, check_config_routes, from_ops=("gen.config_routes",)),
+    Oracle("paths-follow-cwd", gen_cwd, check_cwd),
     Oracle("generation-byte-identical", gen_oracle_e2e, check_e2e, covered=covered_e2e, from_ops=("gen.e2e",),
            adapt=lambda op, a: {"schemas": a["schemas"], "options": a["options"]}),
 ]
@@ -1626,12 +1647,6 @@ def finding_seq_leak():
     return bool(big), f"sequence numbers in generated code: {nums}; {msg or 'runs agree'}"
 
 
-def finding_cli_generic_frozen():
-    a = {"options": [[d, k, (True if d in ("generic_collections", "format__frozen") else None)] for d, k, _o, _s in S.cli_options()]}
-    msg = check_config_routes(a)
-    return bool(msg), msg or "routes agree"
-
-
 def finding_header_timestamp():
     import datetime
 
@@ -1648,26 +1663,6 @@ def finding_header_timestamp():
     t = datetime.datetime.fromisoformat(m.group(1))
     close = abs((datetime.datetime.now() - t).total_seconds()) < 5
     return close, f"header embeds the wall clock: {m.group(1)}"
-
-
-def finding_cwd_cache():
-    import tempfile
-
-    from xsdata.utils.package import module_path
-
-    d1, d2 = tempfile.mkdtemp(prefix="c12cwd"), tempfile.mkdtemp(prefix="c12cwd")
-    cwd = os.getcwd()
-    try:
-        os.chdir(d1)
-        p1 = module_path(f"c12probe{os.getpid()}.mod")
-        os.chdir(d2)
-        p2 = module_path(f"c12probe{os.getpid()}.mod")
-    finally:
-        os.chdir(cwd)
-        for d in (d1, d2):
-            os.rmdir(d)
-    stale = str(p2).startswith(os.path.realpath(d1)) or str(p2).startswith(d1)
-    return stale, f"after chdir to {d2} module_path still returns {p2}"
 
 
 def finding_sort_types_tie():
@@ -1699,8 +1694,6 @@ def finding_sort_types_tie():
 
 FINDINGS = {
     "C12-F1": finding_seq_leak,
-    "C12-F2": finding_cli_generic_frozen,
     "C12-F3": finding_header_timestamp,
-    "C12-F4": finding_cwd_cache,
     "C12-F5": finding_sort_types_tie,
 }
